@@ -221,7 +221,7 @@ func btItem(e *Exec, s *State, tree, key string) string {
 
 // well-formedness of the ghost view in state s (assumed whenever the tree is read)
 func btWf(e *Exec, s *State, tree string) {
-	s.assume("(forall ((q Int)) (! (=> %s (and (not (= %s null)) (= %s q) %s)) :pattern (%s)))", btHas(e, s, tree, "q"), btItem(e, s, tree, "q"), btKeyOf(e, s, btItem(e, s, tree, "q"), nil), e.isAlloc(s, btItem(e, s, tree, "q")), btItem(e, s, tree, "q"))
+	s.assume("(forall ((q Int)) (! (=> %s (and (not (= %s null)) (= %s q) %s (<= (- 9223372036854775808) q) (<= q 9223372036854775807))) :pattern (%s)))", btHas(e, s, tree, "q"), btItem(e, s, tree, "q"), btKeyOf(e, s, btItem(e, s, tree, "q"), nil), e.isAlloc(s, btItem(e, s, tree, "q")), btItem(e, s, tree, "q"))
 }
 
 type iterInv struct {
